@@ -184,13 +184,26 @@ const APIS: [Api; 16] = [
     Api { name: "debug-of-iter", obtain: "let r = cache.iter().rev().next().unwrap().1;", usage: "touch(&r.len());", exclusive: false, ret_expr: "cache.iter().rev().next().unwrap().1", ret_type: "&'a String" },
 ];
 
-const ACTIONS: [(&str, &str); 9] = [
+const ACTIONS: [(&str, &str); 22] = [
     ("insert", "cache.insert(\"x\".to_owned(), \"y\".to_owned()).unwrap();"),
+    ("try_insert", "touch(&cache.try_insert(\"x\".to_owned(), \"y\".to_owned()).is_ok());"),
     ("clear", "cache.clear();"),
     ("mutate", "cache.mutate(\"a\", |v| v.push('x')).unwrap();"),
     ("set_max_size", "cache.set_max_size(10);"),
     ("get", "touch(&cache.get(\"a\").is_some());"),
+    ("get_entry", "touch(&cache.get_entry(\"a\").is_some());"),
+    ("get_lru", "touch(&cache.get_lru().is_some());"),
+    ("touch", "cache.touch(\"a\");"),
     ("remove", "touch(&cache.remove(\"a\"));"),
+    ("remove_entry", "touch(&cache.remove_entry(\"a\").is_some());"),
+    ("remove_lru", "touch(&cache.remove_lru().is_some());"),
+    ("remove_mru", "touch(&cache.remove_mru().is_some());"),
+    ("retain", "cache.retain(|k, _| k.len() > 3);"),
+    ("reserve", "cache.reserve(100);"),
+    ("try_reserve", "touch(&cache.try_reserve(100).is_ok());"),
+    ("shrink_to", "cache.shrink_to(1);"),
+    ("shrink_to_fit", "cache.shrink_to_fit();"),
+    ("drain", "touch(&cache.drain().count());"),
     ("drop", "drop(cache);"),
     ("move", "let moved = cache; touch(&moved.len());"),
     ("assign", "cache = new_cache();"),
@@ -254,6 +267,31 @@ pub fn borrow_probes(_seed: u64) -> Vec<Probe> {
             id: format!("B-neg-{}-as-static", api.name), krate: "borrows", expect_reject: true,
             codes: vec!["E0621", "E0521", "E0759", "lifetime"], must_mention: None,
             source: format!("pub fn probe<'a>(cache: &'a mut Cache) -> {} {{\n    {}\n}}", api.ret_type.replace("'a", "'static"), api.ret_expr),
+            line_start: 0, line_end: 0,
+        });
+    }
+    // references handed to closures must not escape them
+    let escapes: [(&str, &str, &str); 4] = [
+        ("retain-key", "let mut kept: Vec<&String> = Vec::new();\n    cache.retain(|k, _| { kept.push(k); false });\n    touch(&kept.len());",
+            "let mut n = 0usize;\n    cache.retain(|k, _| { n += k.len(); false });\n    touch(&n);"),
+        ("retain-value", "let mut kept: Option<&String> = None;\n    cache.retain(|_, v| { kept = Some(v); false });\n    touch(&kept.is_some());",
+            "let mut kept: Option<String> = None;\n    cache.retain(|_, v| { kept = Some(v.clone()); false });\n    touch(&kept.is_some());"),
+        ("mutate-value", "let mut leaked: Option<&mut String> = None;\n    cache.mutate(\"a\", |v| { leaked = Some(v); }).unwrap();\n    touch(&leaked.is_some());",
+            "let mut seen = 0usize;\n    cache.mutate(\"a\", |v| { seen = v.len(); }).unwrap();\n    touch(&seen);"),
+        ("mutate-result", "let r: &mut String = cache.mutate(\"a\", |v| v).unwrap().unwrap();\n    cache.clear();\n    r.push('x');",
+            "let r: usize = cache.mutate(\"a\", |v| v.len()).unwrap().unwrap();\n    cache.clear();\n    touch(&r);"),
+    ];
+    for (name, bad, good) in escapes {
+        out.push(Probe {
+            id: format!("B-neg-closure-escape-{}", name), krate: "borrows", expect_reject: true,
+            codes: vec!["E0521", "E0499", "E0502", "E0505", "E0506", "E0597", "E0716", "E0373", "lifetime"], must_mention: None,
+            source: format!("#[allow(unused_mut, unused_variables, unused_assignments)]\npub fn probe() {{\n{}    {}\n}}", setup, bad),
+            line_start: 0, line_end: 0,
+        });
+        out.push(Probe {
+            id: format!("B-pos-closure-no-escape-{}", name), krate: "borrows", expect_reject: false,
+            codes: vec![], must_mention: None,
+            source: format!("#[allow(unused_mut, unused_variables, unused_assignments)]\npub fn probe() {{\n{}    {}\n}}", setup, good),
             line_start: 0, line_end: 0,
         });
     }
